@@ -301,6 +301,51 @@ def ev_rr_table(start, width, lo=0, hi=None):
             "w": max(1, (hi - lo) // 60)}
 
 
+def ev_rs(uni, gname, script):
+    """group.random_scalar(entropy_f) called directly: the secret scalar as a function of the bytes served (C11)"""
+    G = uni.group(gname)
+    log = []
+    pos = [0]
+
+    def f(n):
+        got = script[pos[0]:pos[0] + n]
+        pos[0] += n
+        got = got + bytes(n - len(got))
+        if len(log) > 200:
+            raise EntropyExhausted("sampler does not terminate")
+        log.append({"req": n, "got": hx(got)})
+        return got
+    out = _val(lambda: numhex(G.random_scalar(f)))
+    return {"op": "rs", "grp": gname, "ent": log, "out": out}
+
+
+def ev_rs_table(uni, gname, streams):
+    """random_scalar on many entropy streams of one draw each (volume: rare residues of a hand-written reduction);
+    every stream is exactly the bytes of one draw, recorded: the scalar returned and the bytes consumed"""
+    G = uni.group(gname)
+    res, used = [], []
+    for st in streams:
+        pos = [0]
+
+        def f(n):
+            if pos[0] > 50 * len(st):
+                raise EntropyExhausted("sampler does not terminate")
+            got = st[pos[0]:pos[0] + n]
+            pos[0] += n
+            return got + bytes(n - len(got))
+        try:
+            r = G.random_scalar(f)
+            res.append(numhex(r) if isinstance(r, int) and r >= 0 else "neg")
+        except Exception as e:
+            if isinstance(e, EntropyExhausted):
+                res.append("loop")
+            else:
+                res.append("err")
+        used.append(pos[0])
+    return {"op": "rs_table", "grp": gname, "ents": [hx(s) for s in streams], "res": res, "used": used,
+            "w": max(1, len(streams) // 60)}
+
+
 def ev_pw2s(uni, gname, pw):
     G = uni.group(gname)
     return {"op": "pw2s", "grp": gname, "pw": hx(pw), "out": _val(lambda: numhex(G.password_to_scalar(pw)))}
